@@ -548,6 +548,14 @@ impl Tcp {
                         panic!("{dst} server socket buffer full");
                     }
 
+                    // The connector's ephemeral port can come round again
+                    // while our end of the earlier stream is still in the
+                    // table. Refuse the request (dropping the SYN does that)
+                    // rather than tripping over the existing entry in accept.
+                    if self.sockets.contains_key(&SocketPair::new(dst, src)) {
+                        return Ok(());
+                    }
+
                     if matches(b.bind_addr, dst) {
                         b.deque.push_back((syn, src));
                         b.notify.notify_one();
